@@ -126,12 +126,18 @@ Proof. exact step_alias_refuted. Qed.
    thread-local choice object, get() installs the default, the context manager saves the
    field, sets inside try, restores the saved value in finally; jit_client_init copies;
    donation only of the state argument of step (0) and final (1) in the jit backend (the
-   pmapped functions only ever receive internal device_put copies of caller arrays) *)
+   pmapped functions only ever receive internal device_put copies of caller arrays); the
+   jit and debug backends are the sequential init / step+append / final / yield loop the
+   model's jit_run / debug_run mirror; for_each_client binds its backend through
+   get_for_each_client_backend() and, without step results, wraps the step as (step, ())
+   and drops the third component *)
 Theorem C02_model_anchored :
   backend_choice_thread_local = true /\ backend_get_installs_default = true /\
   ctx_saves_field = true /\ ctx_sets_in_try = true /\ ctx_restores_old_in_finally = true /\
   jit_init_copies = true /\ jit_init_donates = [] /\ jit_step_donates = [0] /\ jit_final_donates = [1] /\
-  blockify_sort_reverse = true.
+  blockify_sort_reverse = true /\ jit_run_is_sequential_loop = true /\ debug_run_is_sequential_loop = true /\
+  api_binds_via_get = true /\ api_passes_step_results_through = true /\ api_drops_unit_step_results = true /\
+  pmap_inputs_are_stacked_copies = true.
 Proof. exact model_anchored. Qed.
 
 (* non-vacuity: 3 clients with 2, 0 and 3 batches on 2 devices; step divides by the
@@ -142,8 +148,9 @@ Example C02_example :
   let final (sh s : Z) := s - sh in
   let zero (_ : Z) := 0 in
   let clients := [(7, [1; 2], 10); (8, [], 20); (9, [3; 4; 6], 30)] in
-  pmap_run init step final zero zero zero 2 100 clients
-  = [(Some 9, 39, [130; 134; 137]); (Some 7, 28, [110; 122]); (Some 8, 20, [])]
+  (let out := pmap_run init step final zero zero zero 2 100 clients in   (* in whatever yield order *)
+   length out = 3%nat /\ In (Some 9, 39, [130; 134; 137]) out /\ In (Some 7, 28, [110; 122]) out /\
+   In (Some 8, 20, []) out)
   /\ map (run_seq init step final 100) clients
   = [(Some 7, 28, [110; 122]); (Some 8, 20, []); (Some 9, 39, [130; 134; 137])]
   /\ snd (run_sched (fun _ => ts0)
@@ -152,7 +159,7 @@ Example C02_example :
   = [(1%nat, 0); (0%nat, 3); (0%nat, 0); (1%nat, 3)]
   /\ own_ok true jit_init_copies (mk_oprog [OFromA 0%nat; OFromB 0%nat] [OFromA 1%nat; OFresh] [OFromB 0%nat; OFromA 0%nat])
         [0%nat] [([[1%nat]; [2%nat]], [3%nat]); ([], [4%nat])] (mk_os 5 []) = true.
-Proof. vm_compute. repeat split. Qed.
+Proof. vm_compute. intuition. Qed.
 
 Print Assumptions C02_pmap_equals_seq.
 Print Assumptions C02_pmap_one_result_per_id.
